@@ -275,4 +275,5 @@ RULES = [
     ("R-C03-5", "the live task starts receiving only after the hand-off (or in tail mode)", r5),
     ("R-C03-7", "a frame the live task filters out (other context, already scanned) is skipped, never terminal (shared with R-C11-8)", r7),
     ("R-C03-6", "no silent gap: a receive error of the broadcast subscription ends the stream (shared with R-C11-7)", r6),
+    ("R-C03-8", "live delivery order = id order: id assignment, commit and broadcast of EVERY append (ephemeral ones included) happen under the one append lock (shared with R-C02-1)", lambda run: __import__("rules.C02", fromlist=["x"]).r1(run)),
 ]
